@@ -395,6 +395,19 @@ def check(repo):
                                "persist_lines": sorted(cfg.nodes[m].line for m in metas)})
 
     _check_loader_and_echo(repo, r3, states)
+    # the persisted state is what a new connection starts from *whenever it is there*: the predicate that decides between "read the state
+    # file" and "start at NOT_EXISTS" asks only whether the artifacts exist (a predicate that can turn false again for a service whose
+    # state file is on disk - a left-over temporary file, an age, a counter - sends an acknowledged service back to state 0)
+    from .c13 import predicate_artifacts
+    pf = repo.module(F.SRV_FM).functions.get("check_sid_folder_exist")
+    if pf is None:
+        raise AnalysisError("loader predicate check_sid_folder_exist vanished from %s" % F.SRV_FM)
+    arts = predicate_artifacts(pf)
+    r3.require(arts is not None, pf, "existence predicate is a conjunction of existence tests",
+               "check_sid_folder_exist is not a conjunction of existence tests of the service's artifacts: a service whose state file is on disk can be "
+               "reported as not existing, i.e. be sent back to NOT_EXISTS and accept a second configuration")
+    if arts is not None:
+        r3.ok({"predicate": pf.qual, "tests": sorted(arts)})
     bad_w, n_w = F.writers_persist_unconditionally(repo, F.SRV_FM)
     r3.require(n_w >= 3, repo.module(F.SRV_FM).functions.get("write_service_meta") or svc.methods["__init__"], "artifact writers found", "only %d artifact writers found in the server file manager" % n_w)
     for wfi, why in bad_w:
